@@ -674,6 +674,10 @@ def replay(ctx, data):
     chain = data['chain']
     mism, _ = C.check_chain(chain)
     if not mism: return None
+    if data.get('expect_key'):          # a recorded finding: it still reproduces only if THIS defect shows, not an earlier step's
+        for m in mism:
+            if C.classify(m) == data['expect_key']: return failure_of(chain, m)
+        return None
     return failure_of(chain, mism[0])
 
 
